@@ -21,6 +21,18 @@ and keyword arguments over (level "stub") a recording stub dispatcher or (level 
 dispatcher over a recording sink; URIs tcp://h1:p1,...,hn:pn (1..n endpoints), zk://hosts/path[#name],
 other schemes.
 
+Families (cases of kind "family"): several related interfaces of ONE generated hierarchy (chain, multiple
+inheritance, diamond, mixed) are each given a client in one process, in every order (all permutations, pairs,
+the same interface twice): base then derived, derived then base, sibling then sibling; each of them is judged
+by Iface / Fwd (C20.exposes, forwarding) exactly like a single interface.  Every case runs in a forked child:
+the proxy-class cache starts empty and only the order inside the case matters.
+
+URIs: every parsed provider is a value and is queried several times (each query one Uri event judged by the same
+clause): right after the parse, again right away now and then, and once or twice more interleaved with the other
+providers of the case; builder level: one SetUri followed by two Build()s over a stub in the load balancer role
+that initializes the provider and asks it for its servers on Open(), as load balancers do.  Returned lists are
+never modified by the driver (the statement says nothing about what a caller may do to them).
+
 End-to-end mode (cases of kind "e2e"): one generated interface, the client built by the real
 ClientProxyBuilder / Scales builder over the REAL MessageDispatcher, below it a recording sink whose Open()
 result and answers the scenario controls.  Scenarios (seeded): calls made before the open completed, after,
@@ -69,7 +81,7 @@ ASSUMPTIONS = [
   'variant, a fresh completed one once the sink is open (as the singleton pool does); an exception escaping from '
   'the response processing into the deliverer of an answer is not judged by itself (the call it was for is)',
 ]
-RULE = {'C20': 'each trace = either 2-3 generated interfaces (every exposed attribute called with positional+keyword '
+RULE = {'C20': 'each trace = either a family (2-4 related interfaces of one hierarchy proxied in a scripted order), or 2-3 generated interfaces (every exposed attribute called with positional+keyword '
                'arguments, value and error outcomes, stub or real dispatcher, cached and fresh proxy class) + 8-12 URIs, '
                'or one end-to-end scenario (2-7 calls through a generated client over the real dispatcher over a '
                'recording sink; calls before/after/around the completion of open, DispatcherOpen() repeated, answers '
@@ -84,6 +96,13 @@ def models(prop, tier):
   ms = [dict(module='UriProxyCheck', cfg='UriProxyCheck.cfg', coverage=True, workers=4,
              what='split/join inverse over 7-symbol alphabet up to length 5, tcp/zk format-parse round trips, '
                   'name laws over 2^10 name sets, proxy-class cache machine')]
+  ms[0]['what'] += ', a static provider queried three times'
+  ms.append(dict(module='UriProxyCheck', cfg='UriProxyCheck_inherit.cfg', workers=2, expect_violation='CacheFaithful',
+                 what='counterexample generator: proxy class kept on the interface and looked up through inheritance '
+                      '(a derived interface asked after its base is handed the base\'s class)'))
+  ms.append(dict(module='UriProxyCheck', cfg='UriProxyCheck_oneshot.cfg', workers=2, expect_violation='ProviderIsValue',
+                 what='counterexample generator: static provider over a one-shot iterator (only the first query '
+                      'answers the listed endpoints)'))
   # code-shaped model of the dispatcher's call path (calls made before / after the open completed), the call
   # machine of ProxyCalls in lock-step
   ms.append(dict(module='ProxyDispatch', cfg='ProxyDispatch_chain2.cfg', coverage=True, workers=4,
@@ -133,9 +152,13 @@ def _decorate(rng, stem):
   return rng.choice(forms)
 
 
-def _gen_iface(rng, idx):
-  """Interface spec: a small class hierarchy as source text + the calls to make."""
+def _gen_iface(rng, idx, shape=None):
+  """Interface spec: a small class hierarchy as source text + the calls to make.
+  shape (families of related interfaces): 'chain' (each class extends the previous one), 'multi' (the last class
+  extends all the others, which are unrelated), 'diamond' (1 and 2 extend 0, 3 extends 2 and 1)."""
   nclasses = rng.choice([1, 1, 2, 2, 3])
+  if shape is not None:
+    nclasses = 4 if shape == 'diamond' else rng.choice([2, 3, 3])
   classes = []
   used = set()
   for c in range(nclasses):
@@ -184,6 +207,14 @@ def _gen_iface(rng, idx):
       elif rng.random() < 0.5:
         bases = [k - 1]
     c['bases'] = bases
+  if shape == 'chain':
+    for k, c in enumerate(classes):
+      c['bases'] = [k - 1] if k else []
+  elif shape == 'multi':
+    for k, c in enumerate(classes):
+      c['bases'] = list(range(k)) if k == nclasses - 1 else []
+  elif shape == 'diamond':
+    classes[0]['bases'], classes[1]['bases'], classes[2]['bases'], classes[3]['bases'] = [], [0], [0], [2, 1]
   # a chain must stay linearisable: if class 2 lists [0, 1] and 1 inherits 0, order as [1, 0]
   last = classes[-1]
   if len(last['bases']) > 1:
@@ -284,6 +315,31 @@ def _gen_e2e(rng, idx):
           'stub_open': rng.choice(['same', 'same', 'fresh_done'])}
 
 
+def _gen_families(rng, nfam):
+  """Related interfaces of one generated hierarchy, each of them given a client, in one process, in every order:
+  base then derived, derived then base, sibling then sibling, the same one twice (the order inside a case is
+  what matters: every case starts with an empty proxy-class cache)."""
+  import itertools
+  out = []
+  for f in range(nfam):
+    spec = _gen_iface(rng, f, shape=rng.choice(['chain', 'chain', 'multi', 'multi', 'diamond', 'mixed']))
+    n = len(spec['classes'])
+    orders = [list(p) for p in itertools.permutations(range(n))]
+    if len(orders) > 6:
+      orders = rng.sample(orders, 6)
+    if n >= 3:
+      pairs = [list(p) for p in itertools.permutations(range(n), 2)]
+      orders += rng.sample(pairs, min(3, len(pairs)))
+    dup = [rng.randrange(n)]
+    dup += [dup[0]] if n == 1 or rng.random() < 0.5 else [rng.randrange(n), dup[0]]
+    orders.append(dup)
+    for o in orders:
+      out.append({'kind': 'family', 'iface': spec, 'order': o,
+                  'levels': ['stub' if rng.random() < 0.7 else 'real' for _ in o],
+                  'cached': [rng.random() < 0.5 for _ in o]})
+  return out
+
+
 def cases(prop, tier, seed):
   global TRACE_CHUNK
   TRACE_CHUNK = 85 if tier == 'quick' else 250
@@ -297,6 +353,10 @@ def cases(prop, tier, seed):
       ifaces[1]['cname'] = ifaces[0]['cname']     # same class name, same module, different class object
     out.append({'ifaces': ifaces, 'uris': [_gen_uri(rng) for _ in range(rng.randint(8, 12))],
                 'via_builder': rng.random() < 0.5})
+  rng3 = random.Random(15485863 * int(seed) + 77)
+  for c in out:
+    c['requery_seed'] = rng3.randint(0, 2 ** 30)
+  out.extend(_gen_families(rng3, 14 if tier == 'quick' else 280))
   rng2 = random.Random(7919 * int(seed) + 2020)
   for i in range(420 if tier == 'quick' else 6000):
     out.append(_gen_e2e(rng2, i))
@@ -413,22 +473,30 @@ def _function_names(cls):
   return out
 
 
-def _sig_of(spec, attr):
-  """signature index of the (most derived) definition of attr; -1 if unknown."""
-  for c in reversed(spec['classes']):
-    for m in c['methods']:
+def _sig_of(spec, attr, mro=None):
+  """signature index of the (most derived) definition of attr; -1 if unknown.  mro: indices of the classes
+  the interface is made of, most derived first (default: all classes, the last one being the interface)."""
+  order = list(reversed(range(len(spec['classes'])))) if mro is None else mro
+  for k in order:
+    for m in spec['classes'][k]['methods']:
       if m['n'] == attr:
         return m['sig']
   # name-mangled private: _Cls__x
-  for k, c in enumerate(spec['classes']):
-    for m in c['methods']:
+  for k in sorted(order):
+    for m in spec['classes'][k]['methods']:
       n = m['n']
       if n.startswith('__') and not n.endswith('__') and attr.endswith(n) and attr.startswith('_'):
         return m['sig']
   return -1
 
 
-def _run_iface(loop, spec, iid, ev):
+def _class_name(spec, k):
+  return spec['cname'] if k == len(spec['classes']) - 1 else 'Base%d' % k
+
+
+def _run_iface(loop, spec, iid, ev, ns=None, k=None, salt=0):
+  """A client for one interface: class k of the hierarchy (default: the last one), the class statements
+  executed here or, for several related interfaces of one hierarchy, by the caller (ns)."""
   import gevent
   from scales.asynchronous import AsyncResult
   from scales.core import ClientProxyBuilder, Scales
@@ -437,12 +505,17 @@ def _run_iface(loop, spec, iid, ev):
   from scales.constants import ChannelState
 
   driver = gevent.getcurrent()
-  ns = {'ORIG': ORIG, '__name__': 'generated_iface_module'}
-  exec(compile(_class_source(spec), '<iface %d>' % iid, 'exec'), ns)
-  I = ns[spec['cname']]
+  if ns is None:
+    ns = {'ORIG': ORIG, '__name__': 'generated_iface_module'}
+    exec(compile(_class_source(spec), '<iface %d>' % iid, 'exec'), ns)
+  if k is None:
+    k = len(spec['classes']) - 1
+  I = ns[_class_name(spec, k)]
+  by_name = dict((_class_name(spec, j), j) for j in range(len(spec['classes'])))
+  mro = [by_name[c.__name__] for c in I.__mro__ if c.__name__ in by_name and ns.get(c.__name__) is c]
   names = _function_names(I)
   pool = _Pool()
-  rng = random.Random(spec['callseed'])
+  rng = random.Random(spec['callseed'] + 7919 * salt)
   calls = []         # recorded by the stub dispatcher / the recording sink
   state = {'pre': None}
 
@@ -507,7 +580,7 @@ def _run_iface(loop, spec, iid, ev):
       bg.kill(block=False)
       loop.settle()
       ev.append({'e': 'Client', 'i': iid, 'names': [cps(n) for n in names], 'built': 0})
-      return {'names': names, 'inherited': len(spec['classes']) > 1}
+      return {'names': names, 'inherited': len(mro) > 1}
     proxy = r[1]
     cls_same = 1 if type(proxy) is ClientProxyBuilder.CreateServiceClient(I) else 0
     loop.settle()
@@ -560,7 +633,7 @@ def _run_iface(loop, spec, iid, ev):
                    'rec': {'got': 0, 'm': [], 'args': [], 'kw': []}, 'prog': {'kind': 'value', 'tok': 0},
                    'res': {'kind': 'missing', 'tok': -1, 'same': -1, 'fkind': 'none'}})
       continue
-    sig = _sig_of(spec, base)
+    sig = _sig_of(spec, base, mro)
     if sig < 0:
       continue
     for _rep in range(2):
@@ -655,7 +728,7 @@ def _run_iface(loop, spec, iid, ev):
   if not cg.dead:
     cg.kill(block=False)
     loop.settle()
-  return {'names': names, 'inherited': len(spec['classes']) > 1}
+  return {'names': names, 'inherited': len(mro) > 1}
 
 
 def _complete_open(proxy):
@@ -669,31 +742,18 @@ def _complete_open(proxy):
     s = s.next_sink
 
 
-def _run_uri(u, via_builder, ev):
-  from scales.core import ScalesUriParser, Scales
+def _observe_provider(u, prov, ev, q):
+  """One query of a parsed provider -> one Uri event (judged by the same clause every time: the provider a
+  URI yields is a value)."""
   from scales.loadbalancer.serverset import StaticServerSetProvider, ZooKeeperServerSetProvider
   res = {'kind': 'other', 'eps': [], 'hosts': [], 'hostsSeen': 0, 'path': [], 'pathSeen': 0, 'hasEp': -1, 'ep': []}
-  try:
-    if via_builder:
-      class _I(object):
-        def m(self):
-          pass
-      b = Scales.NewBuilder(_I).SetUri(u)
-      prov = b.server_set_provider
-    else:
-      prov = ScalesUriParser().Parse(u)
-  except Exception as ex:
-    res['kind'] = 'rejected'
-    res['exc'] = type(ex).__name__
-    ev.append({'e': 'Uri', 'uri': cps(u), 'res': res})
-    return
   if isinstance(prov, StaticServerSetProvider):
     res['kind'] = 'static'
-    eps = []
-    for s in prov.GetServers():
-      ep = getattr(s, 'service_endpoint', s)
-      eps.append({'h': cps(str(ep.host)), 'p': int(ep.port)})
-    res['eps'] = eps
+    try:
+      res['eps'] = _endpoints(prov.GetServers())
+    except Exception as ex:
+      res['kind'] = 'failed'
+      res['exc'] = type(ex).__name__
   elif isinstance(prov, ZooKeeperServerSetProvider):
     res['kind'] = 'zk'
     name = prov.endpoint_name
@@ -709,7 +769,117 @@ def _run_uri(u, via_builder, ev):
       res['hostsSeen'] = 1
     except Exception:
       pass
-  ev.append({'e': 'Uri', 'uri': cps(u), 'res': res})
+  ev.append({'e': 'Uri', 'uri': cps(u), 'res': res, 'q': q})
+
+
+def _endpoints(servers):
+  eps = []
+  for s in servers:          # (read only: the list is never modified here)
+    ep = getattr(s, 'service_endpoint', s)
+    eps.append({'h': cps(str(ep.host)), 'p': int(ep.port)})
+  return eps
+
+
+def _parse_uri(u, via_builder, ev):
+  """-> the provider, or None if the URI was rejected (Uri event recorded)"""
+  from scales.core import ScalesUriParser, Scales
+  try:
+    if via_builder:
+      class _I(object):
+        def m(self):
+          pass
+      prov = Scales.NewBuilder(_I).SetUri(u).server_set_provider
+    else:
+      prov = ScalesUriParser().Parse(u)
+  except Exception as ex:
+    res = {'kind': 'rejected', 'eps': [], 'hosts': [], 'hostsSeen': 0, 'path': [], 'pathSeen': 0, 'hasEp': -1, 'ep': [],
+           'exc': type(ex).__name__}
+    ev.append({'e': 'Uri', 'uri': cps(u), 'res': res, 'q': 0})
+    return None
+  return prov
+
+
+def _run_uris(loop, script, ev):
+  """Every URI is parsed and its provider queried; then, interleaved with the other parses' providers, every
+  provider is queried one or two more times; then (builder level) one SetUri followed by two Build()s: each
+  client's load balancer (a stub in that role) asks the provider for its servers."""
+  rq = random.Random(script.get('requery_seed', 0))
+  provs = []
+  for u in script['uris']:
+    prov = _parse_uri(u, script.get('via_builder'), ev)
+    if prov is not None:
+      _observe_provider(u, prov, ev, 1)
+      provs.append([u, prov, 1])
+      # now and then ask again right away, before anything else is parsed
+      if rq.random() < 0.25:
+        provs[-1][2] += 1
+        _observe_provider(u, prov, ev, provs[-1][2])
+  again = [p for p in provs for _ in range(rq.choice([1, 1, 2]))]
+  rq.shuffle(again)
+  for p in again:
+    p[2] += 1
+    _observe_provider(p[0], p[1], ev, p[2])
+  tcp = [u for u in script['uris'] if u.startswith('tcp://')]
+  if script.get('via_builder') and tcp:
+    for u in rq.sample(tcp, min(2, len(tcp))):
+      _two_builds(loop, u, ev)
+
+
+def _two_builds(loop, u, ev):
+  from scales.asynchronous import AsyncResult
+  from scales.constants import ChannelState, SinkRole
+  from scales.core import Scales
+  from scales.sink import ClientMessageSink, SinkProvider
+
+  seen = []
+
+  class LbStub(ClientMessageSink):
+    """stands where a load balancer stands: on Open() it initializes the server set provider it was given
+    and asks it for the servers (it does not touch the list)"""
+    def __init__(self, next_provider, sink_properties, global_properties):
+      super(LbStub, self).__init__()
+      self._provider = sink_properties.server_set_provider
+
+    def Open(self):
+      try:
+        self._provider.Initialize(lambda i: None, lambda i: None)
+        seen.append(('static', _endpoints(self._provider.GetServers())))
+      except Exception as ex:
+        seen.append(('failed', []))
+      return AsyncResult.Complete()
+
+    def Close(self):
+      pass
+
+    @property
+    def state(self):
+      return ChannelState.Open
+
+    def AsyncProcessRequest(self, sink_stack, msg, stream, headers):
+      pass
+
+    def AsyncProcessResponse(self, sink_stack, context, stream, msg):
+      pass
+
+  class _I(object):
+    def m(self):
+      pass
+  try:
+    b = Scales.NewBuilder(_I).SetUri(u).WithSink(SinkProvider(LbStub, SinkRole.LoadBalancer, server_set_provider=None)())
+    b.SetOpenTimeout(0)
+  except Exception:
+    return                 # (a rejected URI is judged where it is parsed)
+  for n in (1, 2):
+    before = len(seen)
+    r, g = _outside(loop, b.Build, patient=True)
+    if not g.dead:
+      g.kill(block=False)
+      loop.settle()
+    kind, eps = seen[before] if len(seen) > before else ('failed', [])
+    ev.append({'e': 'Uri', 'uri': cps(u), 'q': 100 + n,
+               'res': {'kind': kind, 'eps': eps, 'hosts': [], 'hostsSeen': 0, 'path': [], 'pathSeen': 0, 'hasEp': -1, 'ep': []}})
+    if r[0] == 'ok':
+      _outside(loop, r[1].DispatcherClose)
 
 
 # ------------------------------------------------------------------- end-to-end driver
@@ -1096,10 +1266,18 @@ def run_case(script):
     return {'cfg': {'kind': 'e2e'}, 'ev': ev,
             'meta': {'inherited': i['inherited'], 'early': i['early'], 'calls': i['calls'], 'reopens': i['reopens'],
                      'escaped': i['escaped'], 'errors': [list(e[1:3]) for e in loop.errors][:3]}}
+  if script.get('kind') == 'family':
+    spec = script['iface']
+    ns = {'ORIG': ORIG, '__name__': 'generated_iface_module'}
+    exec(compile(_class_source(spec), '<family>', 'exec'), ns)
+    for pos, k in enumerate(script['order']):
+      sp = dict(spec, level=script['levels'][pos], cached=script['cached'][pos])
+      info.append(_run_iface(loop, sp, pos + 1, ev, ns=ns, k=k, salt=pos))
+    return {'cfg': {'kind': 'family'}, 'ev': ev,
+            'meta': {'inherited': any(i['inherited'] for i in info), 'errors': [list(e[1:3]) for e in loop.errors][:3]}}
   for iid, spec in enumerate(script['ifaces']):
     info.append(_run_iface(loop, spec, iid + 1, ev))
-  for u in script['uris']:
-    _run_uri(u, script.get('via_builder'), ev)
+  _run_uris(loop, script, ev)
   return {'cfg': {'kind': 'proxy'}, 'ev': ev,
           'meta': {'inherited': any(i['inherited'] for i in info), 'errors': [list(e[1:3]) for e in loop.errors][:3]}}
 
@@ -1165,7 +1343,12 @@ def extra_coverage(prop, tier, traces):
       if e['e'] == 'Uri':
         kinds[e['res']['kind']] = kinds.get(e['res']['kind'], 0) + 1
   e2e = [t for t in traces if t['cfg'].get('kind') == 'e2e']
-  return {'interfaces': ni, 'forwarded_calls': nf, 'uris': nu, 'uri_kinds': kinds,
+  fam = [t for t in traces if t['cfg'].get('kind') == 'family']
+  return {'families_orders': len(fam),
+          'provider_queries': sum(1 for t in traces for e in t['ev'] if e['e'] == 'Uri' and e.get('q', 0) >= 1),
+          'provider_repeat_queries': sum(1 for t in traces for e in t['ev'] if e['e'] == 'Uri' and 2 <= e.get('q', 0) < 100),
+          'two_build_queries': sum(1 for t in traces for e in t['ev'] if e['e'] == 'Uri' and e.get('q', 0) >= 100),
+          'interfaces': ni, 'forwarded_calls': nf, 'uris': nu, 'uri_kinds': kinds,
           'e2e_scenarios': len(e2e),
           'e2e_calls': sum(t.get('meta', {}).get('calls', 0) for t in e2e),
           'e2e_calls_before_open': sum(t.get('meta', {}).get('early', 0) for t in e2e),
